@@ -448,6 +448,10 @@ class Gen:
             c2 = op.const(view) if rng.random() < 0.5 else initializer(view)
             return op.reduce_sum(c2, op.const(np.array([0], np.int64)), keepdims=0)
         if k < 0.58 and "multi" in self.allow:
+            if tuple(a.unwrap_tensor().shape or ()) != (2,):
+                # an operand whose extent is not statically 2 (e.g. the result of an If whose branches yield [1] and [2]: reported [?])
+                # would be a program that FAILS AT RUN TIME when the one-element branch is taken - not a program of the property
+                raise ValueError("Split needs an operand of static extent 2 (re-draw)")
             self.count("Split")
             r = op.split(a, op.const(np.array([1, 1], np.int64)), outputs_count=2)
             return r[rng.randint(0, 1)] if rng.random() < 0.6 else op.add(r[0], r[1])
